@@ -83,14 +83,15 @@ def run(ctx, config='rel-all'):
     check_who_may_call(ctx, config)
 
 
-def check_finger_store(ctx, entry, I, res, e, fn, o, where, axioms):
+def check_finger_store(ctx, entry, I, res, e, fn, o, where, axioms, rules=None):
+    rules = rules or {'R1': 'R1', 'O2': 'O2', 'R3': 'R3'}
     F, _ = arena.footer_field(e)
     cls = arena.classify_finger_store(I, res, e)
     site = 'store#%d(ChunkFooter.ptr)' % o
     if cls in ('FULL', 'OTHER') or cls.startswith('MIXED'):
-        ctx.violation('R1', fn, site + ':' + cls, 'store to the bump finger of class %s (value %s): not a bump, reclaim, saved-finger or empty-chunk value [%s]' % (cls, show(e.val)[:160], where), e.span)
+        ctx.violation(rules['R1'], fn, site + ':' + cls, 'store to the bump finger of class %s (value %s): not a bump, reclaim, saved-finger or empty-chunk value [%s]' % (cls, show(e.val)[:160], where), e.span)
         return
-    ctx.ok('R1', '%s %s via %s' % (fn, site, entry), 'class ' + cls)
+    ctx.ok(rules['R1'], '%s %s via %s' % (fn, site, entry), 'class ' + cls)
     ob, P = arena.j2_obligations(I, res, e, F, e.val, axioms)
     old = arena.old_finger(I, e)
     names = dict(ob)
@@ -121,9 +122,9 @@ def check_finger_store(ctx, entry, I, res, e, fn, o, where, axioms):
             names['EMPTY rewind only when the chunk is not the one saved before the reservation (cur != saved footer)'] = differs_from_saved(I, e, F)
     for n, okv in names.items():
         if okv:
-            ctx.ok('O2' if cls == 'BUMP' else 'R3', '%s %s via %s: %s' % (fn, site, entry, n), 'lemma library under %d facts' % len(e.state.facts))
+            ctx.ok(rules['O2'] if cls == 'BUMP' else rules['R3'], '%s %s via %s: %s' % (fn, site, entry, n), 'lemma library under %d facts' % len(e.state.facts))
         else:
-            ctx.violation('O2' if cls == 'BUMP' else 'R3', fn, site + ':' + n.split('  ')[0],
+            ctx.violation(rules['O2'] if cls == 'BUMP' else rules['R3'], fn, site + ':' + n.split('  ')[0],
                           'cannot establish "%s" for the %s store of %s [%s]' % (n, cls, show(e.val)[:140], where), e.span)
 
 
